@@ -45,7 +45,10 @@ def interval_test(c, x):
         return None
     lo = hi = None
     clo = chi = None
+    CMP = {'cmp_lt': 'Lt', 'cmp_le': 'Le', 'cmp_gt': 'Gt', 'cmp_ge': 'Ge'}
     for a in conjuncts(c):
+        if isinstance(a, tuple) and a and a[0] == 'app' and a[1] in CMP and len(a[2]) == 2:
+            a = ('bin', CMP[a[1]], a[2][0], a[2][1])
         if not (isinstance(a, tuple) and a and a[0] == 'bin' and a[1] in ('Le', 'Lt', 'Ge', 'Gt')):
             return None
         op, l, r = a[1], a[2], a[3]
